@@ -1,4 +1,5 @@
 import Rc.Model.PathSel
+import Rc.Model.PathSelGlue
 namespace Rc.Drv.C10
 open Rc Rc.PathSel
 
@@ -127,6 +128,74 @@ def cmpLine (s : Strat) (rs : List Route) : String :=
         pure s!"{showOrd ab} {showOrd bc} {showOrd ac}"
     | _ => "bad-op"
 
+/-! ### candidates given as a received UPDATE (see harness/src/props/c10.rs, "u-tokens")
+
+`u<sess>,<pdu hex>,<src>,<dop>,<lasn>,<bgpid>,<peer>`: the octets of an UPDATE, the session it was
+received in (`<sess>`: empty = four-octet AS numbers, `2` = two-octet, `a` / `2a` = the same with
+ADD-PATH, as C17's PDU tokens) and the tie-breaker record.  The route is what
+`UpdateMessage::from_octets` → `PaMap::from_update_pdu` → `OrdRoute::try_new` make of it:
+`PathSelGlue.routeOfPdu`. -/
+
+inductive Cand where
+  | abs (r : Route)
+  | pdu (four ap : Bool) (p : Bytes) (tb : PathSelGlue.Tb)
+
+def parseSess (cs : List Char) : Option (Bool × Bool) :=
+  if cs == ['u'] then some (true, false)
+  else if cs == ['u', '2'] then some (false, false)
+  else if cs == ['u', 'a'] then some (true, true)
+  else if cs == ['u', '2', 'a'] then some (false, true)
+  else none
+
+def parseCand (s : String) : Option Cand :=
+  match splitCh ',' s.toList with
+  | [sess, hex, src, dop, lasn, bgpid, peer] => do
+    let (four, ap) ← parseSess sess
+    let p ← bytesOfHex (String.ofList hex)
+    let ibgp ← if src == ['e'] then some false else if src == ['i'] then some true else none
+    let dop ← optU32 dop
+    let lasn ← natOf lasn u32max
+    let bgpid ← natOf bgpid u32max
+    let (v6, addr) ← match splitCh ':' peer with
+      | [['4'], a] => (natOf a u32max).map (false, ·)
+      | [['6'], a] => (natOf a (2 ^ 128 - 1)).map (true, ·)
+      | _ => none
+    pure (.pdu four ap p { ibgp := ibgp, dop := dop, localAsn := lasn, bgpId := bgpid, peerV6 := v6, peerAddr := addr })
+  | _ => (parseRoute s).map Cand.abs
+
+/-- a candidate as the selection sees it: the outcome of `try_new` and, for a candidate given as a
+PDU, the content of the route (attribute map + tie-breakers); `none` = the UPDATE was not accepted -/
+structure Built where
+  route : Outcome Route
+  content : Option (PaMap.Map × PathSelGlue.Tb)
+
+def buildCand : Cand → Option Built
+  | .abs r => some ⟨if (tryNew r).isNone then .ok r else .err, none⟩
+  | .pdu four ap p tb =>
+    match PaMap.parseUpdate four ap p with
+    | .ok u => some ⟨PathSelGlue.routeOfPaMap (PaMap.fromUpdate u) tb, some (PaMap.fromUpdate u, tb)⟩
+    | .err => none
+    | .panic => some ⟨.panic, none⟩
+
+def candStatus : Option Built → String
+  | none => "rej"
+  | some ⟨.ok _, _⟩ => "ok"
+  | some ⟨.err, _⟩ => "refused"
+  | some ⟨.panic, _⟩ => "panic"
+
+def okRoutes (bs : List (Option Built)) : List Route :=
+  bs.filterMap fun b => match b with
+    | some ⟨.ok r, _⟩ => some r
+    | _ => none
+
+def ucmpLine (s : Strat) (cs : List Cand) : String :=
+  let bs := cs.map buildCand
+  let st := bs.map candStatus
+  if st.contains "panic" then "panic"
+  else if st.contains "rej" then "rej " ++ " ".intercalate (st.map fun x => if x == "rej" then "1" else "0")
+  else if st.contains "refused" then "refused " ++ " ".intercalate st
+  else cmpLine s (okRoutes bs)
+
 def handle (ws : List String) : String :=
   match ws with
   | ["try", s, r] =>
@@ -144,6 +213,20 @@ def handle (ws : List String) : String :=
   | ["tri", s, a, b, c] =>
     match parseRoute a, parseRoute b, parseRoute c, parseStrat s with
     | some a, some b, some c, some s => cmpLine s [a, b, c]
+    | _, _, _, _ => "bad-op"
+  | ["utry", s, a] =>
+    match parseCand a, parseStrat s with
+    | some a, some _ =>
+      let st := candStatus (buildCand a)
+      st
+    | _, _ => "bad-op"
+  | ["ucmp", s, a, b] =>
+    match parseCand a, parseCand b, parseStrat s with
+    | some a, some b, some s => ucmpLine s [a, b]
+    | _, _, _ => "bad-op"
+  | ["utri", s, a, b, c] =>
+    match parseCand a, parseCand b, parseCand c, parseStrat s with
+    | some a, some b, some c, some s => ucmpLine s [a, b, c]
     | _, _, _, _ => "bad-op"
   | ["hops", p] =>
     match parsePath p.toList with
